@@ -407,7 +407,9 @@ Definition spec_ok_conc (c : case) : bool :=
      been followed by its delete, returns the database's current row *)
   forallb (fun tv => match nth (fst tv) (c_cres c) None with
                      | Some (Some v) => Nat.eqb v (snd tv)
-                     | _ => false
+                     | Some None => existsb (fun l => match l with LCancel t => Nat.eqb t (fst tv) | _ => false end) (c_sched c)
+                                    (* its own context was cancelled: the context error is the answer *)
+                     | None => false
                      end) (x_expect s) &&
   (* every reader is served: a value the database held, or the context error if a context of its key was cancelled *)
   forallb (fun t => if is_writer c t then true else
